@@ -1768,6 +1768,7 @@ theorem repl_rel (ρ : Env K) (hρ : LitSem ρ) (m : Mapping) (ι₀ : IdxEnv) :
               exact ⟨fun hw => cw hw, fun hw => cc hw, (fun _ e => by cases e), (fun _ e => by cases e)⟩
             · rename_i hbeq
               have sc : RebuildSC k args' = true := by simpa [hbeq] using oksc
+              have h : rebuild k aux args' = some r := rebuildU_eq k aux args' r h hu
               refine ⟨fun hw => ?_, fun hw => ?_, (fun _ e => by cases e), (fun _ e => by cases e)⟩
               · obtain ⟨wN, sN, fN, eN⟩ := cw hw
                 obtain ⟨_, sr, fr, wr⟩ := rebuild_sound_partial ρ hρ .none (fun _ => 0) k aux args' r wN sc h hu
